@@ -414,7 +414,12 @@ static void op_engine(void) {
 	switch (sub) {
 		case 0:	/* create with string */
 		case 1: /* create with caller-owned DString */
-			if (e) { status = ST_BAD_REQUEST; return; }
+			if (e) {	/* slot still occupied by an abandoned history: release it first */
+				mmd_engine_free(e, slot[s].own ? false : true);
+				if (slot[s].own) d_string_free(slot[s].own, true);
+				slot[s].e = NULL; slot[s].own = NULL;
+				if (--live_engines == 0) POOL_DRAIN();
+			}
 			if (live_engines++ == 0) POOL_INIT();
 			if (sub == 0) { slot[s].e = mmd_engine_create_with_string(rq.a[0].p, rq.ext); slot[s].own = NULL; }
 			else { slot[s].own = dstr_from(rq.a[0]); slot[s].e = mmd_engine_create_with_dstring(slot[s].own, rq.ext); }
